@@ -349,3 +349,28 @@ func ZZ_C05_radix() {
 	}
 	rt.Reach("end")
 }
+
+// ZZ_C05_follow: a literal with one arbitrary byte directly behind it, "<TYPE lit?>": unless
+// the byte can continue a number (digits, hex digits, radix and exponent letters, sign,
+// point), the text is either rejected or the item holds exactly the one value the literal
+// denotes - a literal is never cut into a shorter literal and something else.
+func ZZ_C05_follow() {
+	lit := rt.Param("lit")
+	typ := []string{"U2", "I4", "B", "U1", "F8", "F4", "U4", "I8"}[lit]
+	text := []string{"12", "-7", "0x1F", "0b101", "1.5", "2e3", "0o17", "1"}[lit]
+	want := [][]byte{{0, 12}, {0xff, 0xff, 0xff, 0xf9}, {0x1f}, {5}, {0x3f, 0xf8, 0, 0, 0, 0, 0, 0}, {0x44, 0xfa, 0, 0}, {0, 0, 0, 15}, {0, 0, 0, 0, 0, 0, 0, 1}}[lit]
+	c := rt.Byte("c")
+	cont := rt.Or(rt.Or(rt.And(c >= '0', c <= '9'), rt.And(c|0x20 >= 'a', c|0x20 <= 'f')),
+		rt.Or(rt.Or(c|0x20 == 'x', c|0x20 == 'o'), rt.Or(rt.Or(c == '.', c == '+'), rt.Or(c == '-', c|0x20 == 'p'))))
+	rt.Assume(!cont)
+	msgs, errs, _ := Parse("S1F1\n<" + typ + " " + text + string([]byte{c}) + ">\n.")
+	if len(errs) == 0 {
+		rt.Assert(len(msgs) == 1, "follow:one-message")
+		p := zzPayload(msgs[0])
+		rt.Assert(rt.BytesEq(p, want), "follow:exactly-the-literal")
+		rt.Reach("accepted")
+	} else {
+		rt.Assert(len(msgs) == 0, "follow:no-message")
+	}
+	rt.Reach("end")
+}
